@@ -420,9 +420,13 @@ func (hs *clientHandshakeState) handshake() error {
 		if err = hs.sendFinished(c.clientFinished[:]); err != nil {
 			return err
 		}
+		// 会话重用时客户端发送最后一 flight（CCS + Finished）：保存它并进入 2*MSL 驻留期，
+		// 服务端没有收到时会重传自己的 flight，客户端据此重发（与服务端完整握手时的处理对称）。
+		c.flightRetransmit = append([]byte(nil), c.sendBuf...)
 		if _, err = c.flush(); err != nil {
 			return err
 		}
+		c.dwellDeadline = time.Now().Add(dwellPeriod)
 	} else {
 		// === 全握手 ===
 		// Flight 4: 接收 Certificate + ServerKeyExchange* + CertificateRequest* + ServerHelloDone
